@@ -181,6 +181,22 @@ pub fn malformed_rows() -> Vec<(String, &'static str)> {
         v.push((format!("0041-{},PVALID,desc", big), "over-long hexadecimal range end"));
         v.push((format!("{}-{}B,PVALID,desc", big, &big[..big.len() - 1]), "over-long hexadecimal range"));
     }
+    // long garbage made of multi-byte characters in the code point / property field, at every
+    // byte phase (0..3 ASCII characters in front): an error path that cuts the field for its
+    // message must not cut inside a character
+    for phase in 0..4usize {
+        for ch in ['\u{e9}', '\u{65e5}', '\u{ff0c}', '\u{1f600}'] {
+            for n in [20usize, 32, 33, 64, 65] {
+                let run: String = std::iter::repeat(ch).take(n).collect();
+                let pad = "x".repeat(phase);
+                v.push((format!("{}{},PVALID,desc", pad, run), "non-ASCII garbage as code point"));
+                v.push((format!("{}-{},PVALID,desc", pad, run), "non-ASCII garbage as range"));
+                v.push((format!("{}{}-0041,PVALID,desc", pad, run), "non-ASCII garbage as range start"));
+                v.push((format!("0041,{}{},desc", pad, run), "non-ASCII garbage as property"));
+                v.push((format!("0041,PVALID or {}{},desc", pad, run), "non-ASCII garbage as second property"));
+            }
+        }
+    }
     let mut add = |r: &str, why: &'static str| v.push((r.to_string(), why));
     add(" 0041,PVALID,desc", "code point padded");
     add("0041 ,PVALID,desc", "code point padded right");
